@@ -68,6 +68,12 @@ Conforms == NonConst =>
       o3 == o2 + 1 + Kn  nn == Row[o3 + 1]
       cycO == [t \in 1..nn |-> FloatAt(Row, o3 + 1, t)]
       cycP == [t \in 1..nn |-> FloatAt(Row, o3 + 1 + 2 * nn, t)]
+      \* plateau-free series: the "cleaned array" entry point and its deprecated alias (count -1: not applicable)
+      o4 == o3 + 1 + 4 * nn  Kc == Row[o4 + 1]
+      cl == IF Kc >= 0 THEN Slice(o4 + 1, Kc) ELSE <<>>
+      o5 == o4 + 1 + (IF Kc >= 0 THEN Kc ELSE 0)  Kd == Row[o5 + 1]
+      dp == IF Kd >= 0 THEN Slice(o5 + 1, Kd) ELSE <<>>
+      PlateauFree == \A t \in 1..(n - 1) : xs[t] # xs[t + 1]
       cycOK(c, sv) ==
         /\ Len(c) = n
         /\ \A t \in 1..(n - 1) : FLe(c[t], c[t + 1])
@@ -79,4 +85,7 @@ Conforms == NonConst =>
      /\ Chk(mx = MaxList, code, "PeaksMax")
      /\ Chk(mn = MinList, code, "PeaksMin")
      /\ Chk(nn = n /\ cycOK(cycO, FRat(-1, 4)) /\ cycOK(cycP, Zero), code, "NCycArray")
+     /\ Chk(PlateauFree <=> Kc >= 0, code, "TableIndex")
+     /\ Chk(Kc >= 0 => cl = Rep, code, "PeaksCleanedEntry")
+     /\ Chk(Kd >= 0 => dp = Rep, code, "PeaksCleanedEntryAlias")
 =============================================================================
